@@ -186,6 +186,19 @@ CHECKS = {
         note='That float(repr(x)) == x and that repr is the shortest such text is CPython\'s guarantee (trusted base). Texts with '
              'underscores / non-ASCII digits / 0x-style prefixes are an allowed set (A25).',
         ref='DESIGN.md 5 C13'),
+    'C20': dict(
+        technique='TLA+ statement of Reconstructs and transcription of the diffLines algorithm (BareDiff) + TLC model checking over '
+                  'all pairs of short line lists (MC_Diff) + TLC judgement of the values returned by the real shipped diff.bare '
+                  '(Trace_Diff)',
+        text='TLC checks that the transcribed algorithm satisfies Reconstructs for all pairs of line lists <= 4 (5) over 3 letters. '
+             'The shipped diff.bare is loaded through the CLI system-include fetcher, parsed and executed by the real parser and '
+             'runtime for all 14 641 (132 496) pairs as arrays, LF texts, CRLF texts and mixed parts, plus random pairs up to 40 '
+             'lines; TLC splits the inputs into lines itself and decides Reconstructs (block types, non-empty blocks, Identical+Remove '
+             '= left, Identical+Add = right, identical inputs give no Add/Remove). Every shipped include script must parse, validate '
+             'against the schema and be lint-clean.',
+        note='The shipped script is executed by the real interpreter, so the check also exercises while/continue/break lowering on a '
+             'real program.',
+        ref='DESIGN.md 5 C20'),
 }
 
 NOT_YET = 'check not built yet in this round (work in progress; see DESIGN.md section 9 build order)'
